@@ -54,6 +54,9 @@ func runC02(p *Prog, r *Report) {
 	if want("C02.9") {
 		ruleMergedIterator(p, r, "C02.9")
 	}
+	if want("C02.14") {
+		ruleBlockIterRewind(p, r, "C02.14")
+	}
 	if want("C02.13") {
 		ruleSkipListSearch(p, r, "C02.13")
 	}
